@@ -86,6 +86,11 @@ class Deg:
         return ds.pop() if len(ds) == 1 else (0 if not ds else None)
 
 
+def _noit(k):
+    import re
+    return re.sub(r"_it#\d+", "_it", k)
+
+
 def _grouped_by_sort(xv):
     """The vectorised spelling of 'list simplex j under each of its points': with flat = simplices.ravel() (entry e belongs to simplex
     e // width and names point flat[e]),  np.split(np.argsort(flat) // width, np.cumsum(np.bincount(flat, minlength=n))[:-1])  cuts the
@@ -232,6 +237,20 @@ def run(chk):
         if not app:
             okm = _grouped_by_sort(xv)
         chk.ob("R19.2", W, "WulffConstruction._extract_wulff_from_dual_mesh", "every simplex index is appended to the facet list of each of its dual points", bool(okm))
+        # position i of the facet list is dual point (= input facet) i: one list per dual point, stored as built (dropping the empty ones
+        # shifts every later facet onto the wrong normal, energy and label)
+        fst = [e.value for e in xv.events if e.kind == "store" and e.target.key() == "self.wulff_facets"]
+        fdefs = [e.value for e in xv.events if e.kind == "assign" and e.name == "facets"]
+        one_per = False
+        if fst and fdefs:
+            fa = fdefs[0].as_atom()
+            if fa and fa[0] == "obj":
+                fa = fa[3].as_atom()
+            per_point = bool(fa and fa[0] == "comp" and fa[1] == "ListComp" and len(fa[3]) == 1 and fa[3][0][0] == "range" and not fa[3][0][2]
+                             and any(w_ in fa[3][0][1].key() for w_ in ("facet_dual_vectors", "facet_normals", "facet_energies")))
+            one_per = (per_point or not app) and len(fdefs) == 1 and fst[-1].key() == fdefs[0].key()
+        chk.ob("R19.2", W, "WulffConstruction._extract_wulff_from_dual_mesh", "the facet lists are stored one per dual point, in the order of the dual "
+               "points (position i <-> input facet i)", one_per, fingerprint="facets-per-point", found=[str(v)[:100] for v in fst[-1:]])
     if chk.want("R19.3"):
         pp = w.ev("project_to_plane", opaque={"projected_points", "a_vector", "b_vector"})
         chk.saw(W, "project_to_plane")
@@ -270,6 +289,19 @@ def run(chk):
                 if it and len(it) == 3:
                     okt = it[0].key() == "numpy.repeat($facet[0], -2 + $N)" and it[1].key() == "$facet[(slice 1 -1 + $N None)]" and \
                         it[2].key() == "$facet[(slice 2 $N None)]"
+            elif a and call_name(a) in (".reshape", "numpy.array", "numpy.asarray"):
+                # the loop spelling: for j in range(1, N - 1): fan.append((facet[0], facet[j], facet[j + 1]))
+                from .generic import list_appends
+                objs = [x for x in find_atoms(t[0].value, lambda x: x[0] == "obj")]
+                for ob_ in objs[:1]:
+                    aps = list_appends(tv, P.atom(ob_))
+                    if len(aps) == 1 and aps[0].loops and aps[0].loops[-1].kind == "range":
+                        lp = aps[0].loops[-1]
+                        j = lp.index
+                        it = seq_items(aps[0].extra["args"][0])
+                        okt = bool(it and len(it) == 3 and lp.lo == P.const(1) and lp.hi.key() == "-1 + $N" and it[0].key() == "$facet[0]"
+                                   and it[1].key() == P.atom(("sub", P.atom(("local", "facet", 0)), (j,))).key()
+                                   and it[2].key() == P.atom(("sub", P.atom(("local", "facet", 0)), (j + 1,))).key())
         chk.ob("R19.3", W, "order_and_triangulate_polygons", "fan triangulation (f0, f_i, f_i+1), i = 1..N-2", okt, found=str(t[0].value) if t else None)
         ov = w.ev("ordered_facets", opaque={"pts", "idxs", "points_2d", "ccw_order", "facet"})
         chk.saw(W, "ordered_facets")
@@ -278,6 +310,25 @@ def run(chk):
             od.get("ccw_order") is not None and od["ccw_order"].key() == "winding_order_ccw($points_2d)"
         chk.ob("R19.3", W, "ordered_facets", "each facet is projected with its own facet normal and ordered by that projection", bool(oko),
                found=str({k: str(v) for k, v in od.items() if k in ("points_2d", "ccw_order")}))
+        # the entries of an ordered facet are vertex numbers of the construction: the local winding order indexes the pruned points, the
+        # pruning's index list maps those to positions in the facet, the facet to vertex numbers
+        apps = []
+        todo = [e.extra["args"][0] for e in ov.events if e.kind == "call" and e.target is not None and e.target.key().endswith(".append")]
+        while todo:                      # an entry chosen by a conditional (empty facet -> []) is looked at alternative by alternative
+            t_ = todo.pop()
+            ta_ = t_.as_atom()
+            if ta_ and ta_[0] == "ite":
+                todo.extend((ta_[2], ta_[3]))
+            elif t_.key() != "(tuple ())":
+                apps.append(t_)
+        okm = len(apps) == 1 and apps[0].as_atom() and apps[0].as_atom()[0] == "comp" and len(apps[0].as_atom()[3]) == 1 \
+            and apps[0].as_atom()[3][0][1].key() == "$ccw_order" and not apps[0].as_atom()[3][0][2] \
+            and _noit(apps[0].as_atom()[2].key()) == "$facet[$idxs[$ccw_order[_it]]]" \
+            and od.get("pts") is not None and od["pts"].key() == "prune_degenerate_points(points[$facet])[0]" \
+            and od.get("idxs") is not None and od["idxs"].key() == "prune_degenerate_points(points[$facet])[1]"
+        chk.ob("R19.3", W, "ordered_facets", "an ordered facet lists vertex numbers: facet[idxs[x]] for x in the winding order of the pruned points "
+               "(the winding order alone indexes the pruned subset, not the facet)", bool(okm), fingerprint="vertex-numbers",
+               expected="[facet[idxs[x]] for x in ccw_order]", found=[str(a)[:120] for a in apps])
         fx = w.ev("WulffConstruction._fix_wulff_mesh")
         call = [e for e in fx.events if e.kind == "call" and call_name(e.value.as_atom() or ()) == "order_and_triangulate_polygons"]
         okf = bool(call) and [x.key() for x in call[0].extra["args"]] == ["self.wulff_vertices", "self.wulff_facets", "self.facet_normals"]
